@@ -8,7 +8,7 @@ import (
 
 func init() { scenarios["C11"] = scenarioC11 }
 
-var c11Behaviours = []string{"pass", "skip", "errorf", "errorf-skip", "cleanup-errorf", "cleanup-panic", "fatal", "errorf-invalid"}
+var c11Behaviours = []string{"pass", "skip", "errorf", "errorf-skip", "cleanup-errorf", "cleanup-panic", "fatal", "errorf-invalid", "cleanup-skip"}
 
 func rangeIf(v int, lo, hi int, body ...*Stmt) *Stmt {
 	return &Stmt{K: SIf, Cond: &Cond{Var: v, Op: OpGE, C: int64(lo)}, Body: []*Stmt{{K: SIf, Cond: &Cond{Var: v, Op: OpLT, C: int64(hi)}, Body: body}}}
@@ -21,11 +21,11 @@ func genC11Prog(t *Tape) (*Prog, []int) {
 	x := 1
 	p.NVars = 3
 	// weights of the 7 behaviours, summing to 100
-	w := make([]int, 8)
+	w := make([]int, 9)
 	w[0] = t.Int("c11.w.pass", 30, 80)
 	rest := 100 - w[0]
-	for i := 1; i < 8; i++ {
-		if i == 7 {
+	for i := 1; i < 9; i++ {
+		if i == 8 {
 			w[i] = rest
 			break
 		}
@@ -35,8 +35,8 @@ func genC11Prog(t *Tape) (*Prog, []int) {
 		}
 		rest -= w[i]
 	}
-	bounds := make([]int, 9)
-	for i := 0; i < 8; i++ {
+	bounds := make([]int, 10)
+	for i := 0; i < 9; i++ {
 		bounds[i+1] = bounds[i] + w[i]
 	}
 	labelled := t.Chance("c11.labelled", 30)
@@ -52,6 +52,8 @@ func genC11Prog(t *Tape) (*Prog, []int) {
 		{K: SCtx},
 		rangeIf(sel, bounds[4], bounds[5], &Stmt{K: SFail, FKind: FKErrorf, Site: 1}),
 		rangeIf(sel, bounds[5], bounds[6], &Stmt{K: SFail, FKind: FKPanicStr, Site: 2}),
+		// registered first, so it runs last: a Skip raised by the last cleanup function makes the case invalid
+		rangeIf(sel, bounds[8], bounds[9], &Stmt{K: SSkip, SKind: 0}),
 	}})
 	if t.Chance("c11.ctx", 50) {
 		p.Body = append(p.Body, &Stmt{K: SCtx, Park: t.Chance("c11.park", 50)})
@@ -77,7 +79,7 @@ func behaviourOf(inv *Invocation, bounds []int) int {
 	if _, err := fmt.Sscanf(inv.Draws[0].Text, "%d", &v); err != nil {
 		return -1
 	}
-	for i := 0; i < 8; i++ {
+	for i := 0; i < 9; i++ {
 		if v >= bounds[i] && v < bounds[i+1] {
 			return i
 		}
